@@ -36,6 +36,9 @@ def with_layout(vals, shape, layout):
         return np.asfortranarray(a)
     if layout == 'transposed':
         return np.ascontiguousarray(a.T).T          # a view with reversed strides
+    if layout == 'readonly':
+        a.flags.writeable = False               # the caller's array must never be written to
+        return a
     if layout == 'strided':
         big = np.zeros(tuple(shape[:-1]) + (2 * shape[-1],))
         big[..., ::2] = a
